@@ -129,6 +129,25 @@ func runC04Cut(t fataler, mode c03Mode, msgs []inMsg, frames []ref.Frame, ends [
 					obs.CleanEOFAfter = true
 				}
 			}
+		case "iocopy":
+			// the message reader handed to io.Copy (which uses the reader's WriteTo or the writer's ReadFrom if there is
+			// one): a clean end of the copy is the reader's word that the message is complete
+			conn.SetReadLimit(1 << 20)
+			for i := 0; i < len(msgs)+2; i++ {
+				_, r, err := conn.Reader(ctx)
+				if err != nil {
+					obs.Err = err
+					break
+				}
+				var b bytes.Buffer
+				_, err = io.Copy(&b, r)
+				if err != nil {
+					obs.Partial = b.Bytes()
+					obs.Err = err
+					break
+				}
+				obs.Complete = append(obs.Complete, b.Bytes())
+			}
 		case "read":
 			conn.SetReadLimit(1 << 20)
 			for i := 0; i < len(msgs)+2; i++ {
@@ -310,7 +329,7 @@ func c04Case(rt *rapid.T, rec *evid.Rec, maxLen, sample int) {
 			}
 		}
 		frames, stream, ends := finishMasking(frames, mode.Client)
-		apis := []string{"reader", "reader2", "read"}
+		apis := []string{"reader", "reader2", "read", "iocopy"}
 		switch flavour {
 		case "binary":
 			apis = append(apis, "netconn")
